@@ -273,6 +273,9 @@ func toInt(v any) int {
 	return 0
 }
 
+// callBudget: no case of the engine needs this many calls of its user function
+const callBudget = 300000
+
 const postCancelBudget = 200
 
 // drainBudget: no case of the engine delivers this many values on one port
@@ -341,6 +344,7 @@ type world struct {
 	cancelF    context.CancelFunc
 	cancelled  bool
 	cancelFlag atomic.Bool // same as cancelled, readable by actors
+	runaway    atomic.Bool // the user function was called more than callBudget times (the caller is parked)
 	limitDrain atomic.Bool // cancel-drain end game: drains take at most postCancelBudget values after cancel
 	cancelSeq  int64       // sequence number taken just before cancel() was called
 	cancelAt   int64
@@ -428,6 +432,13 @@ func (w *world) called(arg int) {
 	}
 	t := w.now()
 	w.emu.Lock()
+	if len(w.calls) > callBudget {
+		// a stage that calls its function without end and without ever blocking (no tick consumed between two calls)
+		// would keep the bubble busy for good: park it and say so
+		w.emu.Unlock()
+		w.runaway.Store(true)
+		select {}
+	}
 	w.calls = append(w.calls, arg)
 	w.callAt = append(w.callAt, t)
 	if w.callN == nil {
